@@ -328,7 +328,8 @@ void varintDimensionPairEntrySetBit(void *_dst, const size_t row,
     uint8_t offsetBit;
     _bitOffsets(dst, row, col, dimension, offsetByte, offsetBit);
 
-    dst[offsetByte] |= setBit << offsetBit;
+    dst[offsetByte] = (uint8_t)((dst[offsetByte] & ~(1 << offsetBit)) |
+                                (setBit << offsetBit));
 }
 
 bool varintDimensionPairEntryToggleBit(void *_dst, const size_t row,
